@@ -616,7 +616,6 @@ pub fn plus_operation<'a>(
           ));
         }
         for controller in nv.iter() {
-          println!("controller: {}", controller);
           values.append(&mut plus_operation(cddl, target, controller)?)
         }
       }
@@ -662,7 +661,6 @@ pub fn plus_operation<'a>(
           ));
         }
         for controller in nv.iter() {
-          println!("controller: {}", controller);
           values.append(&mut plus_operation(cddl, target, controller)?)
         }
       }
@@ -705,7 +703,6 @@ pub fn plus_operation<'a>(
           ));
         }
         for controller in nv.iter() {
-          println!("controller: {}", controller);
           values.append(&mut plus_operation(cddl, target, controller)?)
         }
       }
